@@ -221,7 +221,7 @@ async def vanish(st: "Stack", path) -> bool:
     notices: the file is removed and the executor's reaction is replayed through the Workflow API
     (`_finish_failed_step` / the input validation: `update_file_hashes({path: unknown}, cause=FAILED)`,
     CONFIRMED -> MISSING, hash cleared; recorded glob matches are NOT touched by that path of the code).
-    Returns False when not applicable (no such CONFIRMED attached node / no such file)."""
+    Without a CONFIRMED attached node at the path it is a plain removal.  Returns False when there is no such file."""
     from stepup.core.enums import FileState, HashUpdateCause
     from stepup.core.file import File
     from stepup.core.hash import FileHash
@@ -229,11 +229,11 @@ async def vanish(st: "Stack", path) -> bool:
         return False
     async with st.db:
         node = st.wf.find_attached(File, path)
-        if node is None or node.get_state() != FileState.CONFIRMED:
-            return False
+        noticed = node is not None and node.get_state() == FileState.CONFIRMED
     os.remove(path)
-    async with st.db:
-        st.wf.update_file_hashes({path: FileHash.unknown()}, cause=HashUpdateCause.FAILED)
+    if noticed:     # otherwise no step can have been using it: a plain removal
+        async with st.db:
+            st.wf.update_file_hashes({path: FileHash.unknown()}, cause=HashUpdateCause.FAILED)
     return True
 
 
